@@ -79,6 +79,23 @@ def gen_wgroupby_op(rng, timed):
 def gen_cases(rng, tier):
     for _ in range(40 if tier == 'quick' else 400):
         yield E.gen_intlabel_case(rng, True)
+    for _ in range(2 if tier == 'quick' else 20):
+        # every observation leaves the window again: values that are not exactly representable, then missing values only.
+        # A total kept by adding and subtracting retains a rounding residue then; the results are those of no observation
+        a, b = rng.choice([2, 3, 4, 5]), rng.choice([2, 3, 4])
+        tab = E.gen_table(rng, n=a + b, time=False)
+        c = rng.choice([0.1, 0.3, 0.7])
+        tab['x'] = [c] * a + [None] * b
+        tab['g'] = [rng.choice(['a', 'b']) for _ in range(a)] + ['a', 'b'] * b
+        tab['g'] = tab['g'][:a + b]
+        tab.pop('g_cat', None)
+        for w in (1, 2):
+            for agg in ('mean', 'sum', 'var'):
+                src = rng.choice(['df', 'series'])
+                yield {'tab': tab, 'sizes': [1] * (a + b), 'ex': 'rows',
+                       'op': {'fam': 'win', 'src': src, 'sel': 'x' if src == 'df' else None, 'selpos': 'before', 'agg': agg, 'win': ['n', w], 'pre': None}}
+                yield {'tab': tab, 'sizes': [1] * (a + b), 'ex': 'rows',
+                       'op': {'fam': 'wgb', 'src': 'df', 'sel': 'x', 'by': [rng.choice(['col', 'ser']), 'g'], 'agg': agg, 'win': ['n', w], 'pre': None}}
     n_w, n_g = (10, 10) if tier == 'quick' else (11, 11)
     for ti in range(n_tables(tier)):
         tab = E.gen_table(rng, nan=(ti % 2 == 1), time=(ti % 4 < 2))
